@@ -63,7 +63,9 @@ func planFor(prop string) staticPlan {
 		// source packages named like std packages the output imports as well (sync is always imported)
 		syncSrc, httpSrc := gen.ProfGeneral, gen.ProfImports
 		syncSrc.SrcName, httpSrc.SrcName = "sync", "http"
-		p.profiles = []gen.Profile{gen.ProfGeneral, syncSrc, gen.ProfImports, gen.ProfGeneric, httpSrc, gen.ProfNaming}
+		clash := gen.ProfImports
+		clash.SrcClash = true
+		p.profiles = []gen.Profile{gen.ProfGeneral, syncSrc, clash, gen.ProfGeneric, httpSrc, gen.ProfNaming}
 		p.rule = base + "at least one method; destinations and -skip-ensure over-sampled"
 	case "C11":
 		syncSrc := gen.ProfImports
@@ -97,7 +99,7 @@ func matrixFor(prop string) []string {
 		return []string{"reserved", "numbered", "derived", "initialisms"}
 	case "C13":
 		return []string{"initialisms", "derived", "numbered", "stale"}
-	case "C11":
+	case "C11", "C09", "C10":
 		return []string{"stale"}
 	}
 	return nil
